@@ -104,7 +104,7 @@ def extracted_vc(repo):
 
 class WfqPart:
     name = "wfq"
-    kinds = ["wfq", "vc", "wfq2", "vc2", "heap"]
+    kinds = ["wfq", "vc", "wfq2", "vc2", "heap", "txfloat"]
     serves = ["C14", "C12", "C08"]
     coq_imports = ["From ONL Require Import Base.Cmp Elem.Packet Elem.StoreQ Elem.HeapList Elem.HeapRun Elem.WFQServer Elem.WFQ Elem.VC."]
     props_files = {"C14": ["Props/C14.v", "Props/C14_Bridge.v", "Props/C14_BridgeVC.v"], "C12": ["Props/C12_WFQ.v"], "C08": ["Props/C08_WFQ.v"]}
@@ -117,7 +117,11 @@ class WfqPart:
             "equal stamps by construction (equal weights and sizes at one instant); kinds wfq2 / vc2 (16%): TWO instances in one "
             "Environment sharing class ids (same or different tables) with interleaved workloads, each replayed against its own "
             "copy of the model and monitored separately, plus an independence monitor (an action of one instance must not change "
-            "the public state of the other); non-trivial = at least 3 packets (per instance) and at least one service decision "
+            "the public state of the other); in 15% of the instances LATE CONFIGURATION: constructed with another rate, the public "
+            "attribute `rate` assigned the case's rate (and `out` re-wired) before any traffic; the next hop behind every scheduler "
+            "reads size()/byte_size()/queue_count/queue_byte_size/total_packets inside its put() (C12 clause sched-counters-at-forward, "
+            "also compared with the model); (C12 only, 5%) kind txfloat: non-dyadic rate, odd sizes, burst at t=0, forward instants "
+            "compared with the binary64 recurrence t += size*8.0/rate (no model term); non-trivial = at least 3 packets (per instance) and at least one service decision "
             "taken among >= 2 waiting packets; distinct by hash of the case")
         for p in ("C14", "C12", "C08")}
     trusted_base = {
@@ -170,6 +174,20 @@ class WfqPart:
                     ops.append([rng.choice([0, 1, 1, 2, 3, 5, 8, rng.randint(-5, 30)]), k])
                     size += 1
             return {"kind": "heap", "ops": ops}
+        if prop_id == "C12" and rng.random() < 0.05:
+            # float mode: a non-dyadic rate and odd sizes, everything put at t = 0; transmission ends are compared with the
+            # Python floats  t := t + size * 8.0 / rate  (no model term: outside the exact-rational domain)
+            kind = rng.choice(["wfq", "vc"])
+            rate = rng.choice([1000, 3000, 8000, 10000, 48000, 56000, 1500000])
+            n = rng.randint(1, 5)
+            pk = {str(u): {"id": u + 1, "flow": 0, "size": rng.choice([41, 43, 51, 59, 71, 100, 333, 577, 1000, 1499, 1500]),
+                           "time": "0/1", "src": "src0"} for u in range(n)}
+            c = {"kind": kind, "classes": {"0": 1 if kind == "wfq" else "1/1"}, "rate": rate, "f2c": {},
+                 "workload": {"packets": pk, "drivers": [{"late": 0, "bursts": [["0/1", list(range(n))]]}]},
+                 "pre": False, "exact": False, "style": "float"}
+            if rng.random() < 0.3:
+                c["late_rate"] = rng.choice([r for r in (1000, 8000, 1024) if r != rate])
+            return {"kind": "txfloat", "inst": c}
         r = rng.random()
         if r < 0.16:
             # two scheduler instances in ONE Environment, sharing class ids (same or different tables): instances
@@ -220,8 +238,14 @@ class WfqPart:
             sizes = [rng.choice(sizes)]                    # one size: many equal stamps
         style = rng.choice(["static", "static", "stagger", "idle", "random", "random", "random"])
         w = self._workload(rng, style, flows, sizes, rate)
-        return {"kind": kind, "classes": classes, "rate": rate, "f2c": f2c, "workload": w, "pre": rng.random() < 0.3,
+        case = {"kind": kind, "classes": classes, "rate": rate, "f2c": f2c, "workload": w, "pre": rng.random() < 0.3,
                 "exact": exact, "style": style}
+        if rng.random() < 0.15:
+            # LATE CONFIGURATION: the scheduler is constructed with another rate and the public attribute `rate` is assigned
+            # the case's rate (the one the model and the monitors use) before any traffic: the code reads self.rate at every
+            # use (send_packet, WFQ.put), so a copy cached at construction shows
+            case["late_rate"] = rng.choice([r for r in RATES + [1000, 8000] if r != rate])
+        return case
 
     def _workload(self, rng, style, flows, sizes, rate):
         packets, drivers = {}, []
@@ -295,6 +319,9 @@ class WfqPart:
         if case["kind"] in ("wfq2", "vc2"):
             obs = self._run(case["insts"], case.get("pre"))
             return {"multi": obs[:-1], "interfere": obs[-1], "raised": obs[0]["raised"]}
+        if case["kind"] == "txfloat":
+            o = self._run([case["inst"]], False)[0]
+            return {"inst": o, "raised": o["raised"]}
         return self._run([case], case.get("pre"))[0]
 
     def _run(self, cases, pre):
@@ -315,15 +342,20 @@ class WfqPart:
         def make(i, c):
             tbl = {int(f): int(cl) for f, cl in c["f2c"].items()}
             f2c = lambda f: tbl.get(f, f)                                                   # noqa: E731
+            rate0 = c.get("late_rate") or c["rate"]
             if c["kind"] == "wfq":
                 from onl.scheduler.wfq import WFQ
-                s = WFQ(env, c["rate"], {int(cl): int(v) for cl, v in c["classes"].items()}, flow2class=f2c)
+                s = WFQ(env, rate0, {int(cl): int(v) for cl, v in c["classes"].items()}, flow2class=f2c)
                 proc = s.action
             else:
                 from onl.scheduler.virtual_clock import VC
-                s = VC(env, c["rate"], {int(cl): ec.T(v) for cl, v in c["classes"].items()}, flow2class=f2c)
+                s = VC(env, rate0, {int(cl): ec.T(v) for cl, v in c["classes"].items()}, flow2class=f2c)
                 proc = s.proc
-            s.out = h.tap("out" + tags[i])
+            if c.get("late_rate"):
+                s.out = h.tap("decoy" + tags[i])          # re-wired below: `out` is read at every forward, too
+                s.rate = c["rate"]                         # link re-configured while idle, before any traffic
+            flows_c = sorted({int(sp["flow"]) for sp in c["workload"]["packets"].values()})
+            s.out = CountTap(h, h.tap("out" + tags[i]), s, flows_c)
             h.watch_store("store" + tags[i], s.store)
             if tags[i]:
                 proc._generator.__name__ = "run" + tags[i]
@@ -545,6 +577,8 @@ class WfqPart:
             for c, o in zip(case["insts"], obs["multi"]):
                 msgs += self.monitor(c, o, prop_id)
             return msgs[:3]
+        if case["kind"] == "txfloat":
+            return self._mon_float(case["inst"], obs["inst"], prop_id)
         kind = case["kind"]
         if obs["raised"]:
             return [f"{kind}-raises: {obs['raised'][0]}: {obs['raised'][1][:160]}"]
@@ -650,7 +684,12 @@ class WfqPart:
         self._fifo_once(case, obs, ev, msgs)
         if msgs:
             return
-        # counters after every action
+        self._mon_counters(case, obs, ev, msgs)
+
+    def _mon_counters(self, case, obs, ev, msgs):
+        """counters after every action, and as the next hop sees them inside its put() (the departing packet excluded)"""
+        kind = case["kind"]
+        arr, specs, deps = ev["arr"], ev["specs"], ev["deps"]
         cnt, byt = {}, {}
         dep_by_i = {}
         for (u, _, i, _, _) in deps:
@@ -664,6 +703,20 @@ class WfqPart:
                 f = int(specs[str(u)]["flow"])
                 cnt[f] -= 1
                 byt[f] -= int(specs[str(u)]["size"])
+            for o in (e[2] if e[0] in ("put", "step") else []):
+                if len(o) > 5:
+                    snap = o[5]
+                    for (f, sz, bs, qc, qb) in snap["per"]:
+                        if (sz, qc) != (cnt.get(f, 0), cnt.get(f, 0)) or (bs, qb) != (byt.get(f, 0), byt.get(f, 0)):
+                            msgs.append(f"sched-counters-at-forward: when packet {o[2]} was handed to the next hop ({kind}, log entry {i}) "
+                                        f"flow {f} reported size()={sz} byte_size()={bs} queue_count={qc} queue_byte_size={qb}, but "
+                                        f"{cnt.get(f, 0)} packets / {byt.get(f, 0)} bytes of it are still waiting or in transmission "
+                                        f"(the departing packet has left)")
+                            return
+                    if snap["total"] != sum(cnt.values()):
+                        msgs.append(f"sched-counters-at-forward: when packet {o[2]} was handed to the next hop ({kind}, log entry {i}) "
+                                    f"total_packets={snap['total']} but {sum(cnt.values())} packets are still waiting or in transmission")
+                        return
             if e[0] in ("put", "step", "adv"):
                 for (f, c, b) in e[-1][3]:
                     if c != cnt.get(f, 0) or b != byt.get(f, 0):
@@ -674,6 +727,33 @@ class WfqPart:
                 if tot != len([1 for x in arr.values() if x[1] <= i]):
                     msgs.append(f"{kind}-counters: packets_received={tot} after log entry {i}")
                     return
+
+    def _mon_float(self, c, o, prop_id):
+        """float mode (C12): one class, everything put at t = 0; the k-th packet is forwarded at the Python float
+        t_k = t_(k-1) + size_k * 8.0 / rate  (t_0 = 0.0), i.e. every transmission lasts exactly the float 8*size/rate"""
+        kind = c["kind"]
+        if o["raised"]:
+            return [f"{kind}-raises: {o['raised'][0]}: {o['raised'][1][:160]}"]
+        if prop_id != "C12":
+            return []
+        ev = self._events(c, o)
+        msgs = []
+        specs = ev["specs"]
+        order = sorted(ev["arr"], key=lambda u: ev["arr"][u][1])
+        t = 0.0
+        for k, u in enumerate(order):
+            t = t + specs[str(u)]["size"] * 8.0 / c["rate"]
+            if k < len(ev["deps"]):
+                (du, td, _, _, _) = ev["deps"][k]
+                if du != u or td != Fraction(t):
+                    msgs.append(f"sched-tx-time-float: {kind} rate {c['rate']}: packet {u} (size {specs[str(u)]['size']}, no. {k + 1} of a burst at t=0) "
+                                f"was forwarded at {float(td)!r} (packet {du}), expected {t!r} = previous end + size*8.0/rate in binary64")
+                    return msgs
+            elif o["exhausted"]:
+                msgs.append(f"{kind}-exactly-once: packet {u} was never forwarded")
+                return msgs
+        self._mon_counters(c, o, ev, msgs)
+        return msgs[:3]
 
     def _fifo_once(self, case, obs, ev, msgs):
         kind = case["kind"]
@@ -719,6 +799,8 @@ class WfqPart:
 
     # ---- bookkeeping ------------------------------------------------------------------------------------
     def nontrivial(self, case, obs, prop_id):
+        if case["kind"] == "txfloat":
+            return len(case["inst"]["workload"]["packets"]) >= 2 and not obs.get("raised")
         if case["kind"] == "heap":
             pr = [o[0] for o in case["ops"] if o is not None]
             return len(pr) >= 4 and len(set(pr)) < len(pr) and any(o is None for o in case["ops"])
@@ -738,6 +820,14 @@ class WfqPart:
         return False
 
     def shrink(self, case):
+        if case["kind"] == "txfloat":
+            pk = case["inst"]["workload"]["packets"]
+            for u in sorted(pk, key=int)[::-1]:
+                if len(pk) > 1:
+                    rest = {k: v for k, v in pk.items() if k != u}
+                    w = {"packets": rest, "drivers": [{"late": 0, "bursts": [["0/1", sorted(int(k) for k in rest)]]}]}
+                    yield {**case, "inst": {**case["inst"], "workload": w}}
+            return
         if case["kind"] == "heap":
             for i in range(len(case["ops"])):
                 yield {**case, "ops": case["ops"][:i] + case["ops"][i + 1:]}
@@ -759,6 +849,9 @@ class WfqPart:
             yield {**case, "f2c": {f: c for f, c in case["f2c"].items() if f in used}}
 
     def describe(self, case, obs):
+        if case["kind"] == "txfloat":
+            return ["txfloat", "txfloat:" + case["inst"]["kind"], "txfloat:rate=%d" % case["inst"]["rate"]] + (
+                ["txfloat:late-rate"] if case["inst"].get("late_rate") else [])
         if case["kind"] == "heap":
             return ["heap", "heap:ops=%d" % (10 * (len(case["ops"]) // 10))]
         if case["kind"] in ("wfq2", "vc2"):
@@ -775,6 +868,8 @@ class WfqPart:
             keys.append(f"{k}:driver-created-before-element")
         if len(set(case["classes"].values())) < len(case["classes"]):
             keys.append(f"{k}:equal-weights")
+        if case.get("late_rate"):
+            keys.append(f"{k}:rate-assigned-after-construction")
         return keys
 
     # ---- log -> model actions; Coq terms -----------------------------------------------------------------
@@ -808,6 +903,12 @@ class WfqPart:
             else:
                 return None, f"unexpected log entry {e[:2]}"
             (cur, nit, nrecv, per, x) = e[-1]
+            for y in outs:
+                # what the next hop read inside its put() must be what the model has after FChildTimer (it decrements and forwards
+                # in one step), i.e. the counters sampled after this action
+                if len(y) > 5 and ([[f, a, b] for (f, a, b, _, _) in y[5]["per"]] != [list(z) for z in per]
+                                   or [[f, a, b] for (f, _, _, a, b) in y[5]["per"]] != [list(z) for z in per]):
+                    return None, f"counters read by the next hop at the forward of packet {y[2]} differ from the model's"
             o = cf.lst([ec.pkt_coq(specs[str(y[2])], y[2]) for y in outs])
             so = f"({cf.z(cur)}, {cf.nat(nit)}, {cf.z(nrecv)}, {cf.lst([cf.pair(cf.z(f), cf.z(c), cf.z(b)) for f, c, b in per])})"
             if case["kind"] == "wfq":
@@ -836,6 +937,8 @@ class WfqPart:
         return False
 
     def agree_term(self, case, obs):
+        if case["kind"] == "txfloat":
+            return None                      # binary64 arithmetic with a non-dyadic rate: outside the rational model's compared domain
         if case["kind"] == "heap":
             hi = lambda x: cf.pair(cf.z(x[0]), cf.z(x[1]))                              # noqa: E731
             return (f"heap_agree {cf.lst([cf.opt(o, hi) for o in case['ops']])} {cf.lst([cf.opt(o, hi) for o in obs['popped']])} "
@@ -871,6 +974,26 @@ class WfqPart:
             tol = "0" if case.get("exact", True) else "(1 # 1000000000)"
             return f"wfq_first_bad {self._cfg(case)} {tol} {body}"
         return f"vc_first_bad {self._cfg(case)} {body}"
+
+
+class CountTap:
+    """the next hop behind the scheduler: at the moment its put() is called it reads the scheduler's public counters
+    (size(f), byte_size(f), queue_count, queue_byte_size, total_packets) and attaches them to the logged output"""
+
+    def __init__(self, h, inner, sched, flows):
+        self.h, self.inner, self.sched, self.flows = h, inner, sched, flows
+
+    def put(self, p):
+        s = self.sched
+        per = []
+        for f in self.flows:
+            known = f in s.queue_count
+            per.append([f, s.size(f) if known else 0, s.byte_size(f) if known else 0,
+                        s.queue_count.get(f, 0), s.queue_byte_size.get(f, 0)])
+        snap = {"per": per, "total": s.total_packets}
+        self.inner.put(p)
+        if self.h.cur_outs:
+            self.h.cur_outs[-1].append(snap)
 
 
 def shift_workload(w, k):
